@@ -25,7 +25,7 @@ TECHNIQUE = 'symbolic execution of the real PIT cost path on z3-real masks; per 
 FUNCTIONS_ENCODED = ['PIT.get_cost/_get_single_cost/_single_cost_fn_map/cost_specification setter', 'PITConv1d/PITConv2d/PITLinear.get_modified_vars/out_features_eff/k_eff',
                      'ModAttr/Flatten/Concat/ConstFeaturesCalculator.features', 'plinio.cost.params/params_no_bias/ops/ops_no_bias/gap8_latency (registered functions)',
                      'shapes_dict', 'named_leaf_modules/uniquify_leaf_modules', 'PIT.export (for the from-scratch oracle)']
-BOUNDS = {'quick': 'programs T1(K=3,4), T2, A1, K1(s+f, f+f), K3 (nested concat), H1 (multi-resolution flatten+concat head), D2 (+gap8), L1, R2, R4; specs as one dictionary {params, params_no_bias, ops, ops_no_bias} and params alone; full_cost on/off; cost specification re-assigned after pruning',
+BOUNDS = {'quick': 'programs T1(K=3,4), T2, A1, K1(s+f, f+f), K3 (nested concat), H1 (multi-resolution flatten+concat head), D2 (+gap8), L1, R2, R4; specs as one dictionary {params, params_no_bias, ops, ops_no_bias} and params alone; full_cost on/off; cost specification re-assigned after pruning; discrete_cost switched on after construction (plain, after train_net_only, after train_features=False); cost read after the masks are written through .data / in place into a used model',
           'thorough': 'T1 K=1..9, all C01 whole-net programs incl. fold_bn, every metric also as a single specification'}
 OUTSIDE = ['float32 rounding of cost sums (exact arithmetic)', 'layers pruned to exactly 1 input and 1 output channel with groups=1: they satisfy conv_dw_constraint, so a from-scratch evaluation picks the depthwise model while the search used the generic one (GAP8: 54 vs 81 on D2 with a 1-channel input); the grammar uses 2 input channels for 2D programs', 'architectures outside the grammar', 'user-defined cost specifications']
 ASSUMPTIONS = ['the from-scratch oracle for latency-like metrics is PIT(exported, same spec).get_cost at initialisation (the statement\'s own definition); params and ops additionally use independent numel / forward-hook counts']
